@@ -131,6 +131,20 @@ def K1(F, rep, R):
         for fn in meths:
             locks_itself[(fn['simple'], fn['sig'])] = any(isinstance(n, dict) and n.get('k') == 'Decl' and is_lock_decl(n, mtx) is not None
                                                          for n in walk(fn['body']))
+        # helpers entered with the lock held: a method that does not lock itself and whose in-class call sites all hold the lock - either
+        # syntactically or because the calling function is itself such a helper (helper calling helper); least fixed point
+        entered_held = {}
+        changed = True
+        while changed:
+            changed = False
+            for fn in meths:
+                key = (fn['simple'], fn['sig'])
+                if entered_held.get(key) or locks_itself[key] or fn.get('access') != 2:
+                    continue
+                callers = [c for c in calls_held if c[1] == fn['simple'] and c[2] == fn['sig']]
+                if callers and all(c[3] or entered_held.get((c[0]['simple'], c[0]['sig'])) for c in callers):
+                    entered_held[key] = True
+                    changed = True
         for (fn, field, line, held) in accesses:
             if fn.get('kind') in ('ctor', 'dtor'):
                 continue
@@ -139,7 +153,7 @@ def K1(F, rep, R):
             why = 'with %s held' % mtx[0]
             if not held and not locks_itself[(fn['simple'], fn['sig'])]:
                 callers = [c for c in calls_held if c[1] == fn['simple'] and c[2] == fn['sig']]
-                if callers and all(c[3] for c in callers):
+                if callers and all(c[3] or entered_held.get((c[0]['simple'], c[0]['sig'])) for c in callers):
                     ok = True
                     why = 'in a helper whose %d caller(s) all hold %s' % (len(callers), mtx[0])
             rep.ob('K1', '%s|%s' % (short(fn['name']), field), ok, rep.fn_site(fn, line),
